@@ -618,7 +618,7 @@ def rule_tsv_reader(repo, col):
         col.unknown(rule, CONV, '_convert', 'to_tsv', f, 'call not found')
     else:
         c = calls[0]
-        hk = kwarg(c, 'header_key')
+        hk = kwarg(c, 'header_key') or (c.args[0] if c.args else None)
         col.check(hk is not None and dotted(hk) == 'header_key', rule, CONV,
                   '_convert', 'forward:header_key', c, 'forwarded',
                   '--header-key is not forwarded to to_tsv')
